@@ -64,6 +64,8 @@ func (propC01) Draw(rt *rapid.T, w *WorldDesc, mode string) *Plan {
 	}
 	p.Sequential = rapid.IntRange(0, 3).Draw(rt, "sequential") == 0
 	p.Schedule = drawSchedule(rt, 64)
+	inflatePayloads(rt, w, p)
+	p.MountPrefix = rapid.SampledFrom([]string{"", "", "", "/gw", "/gateway/tenant-7"}).Draw(rt, "mountPrefix")
 	return p
 }
 
